@@ -109,6 +109,7 @@ SWriteStr(b)     == SOp("WriteString", b, 0, <<>>, <<>>)      \* io.WriteString(
 \* buffer's: a byte >= 0x80 becomes '?', an invalid rune U+FFFD); a fmt.State only has Write, so on a printer
 \* they stand for Write of that byte / of the rune's encoding
 SWriteByte(c)    == SOp("WriteByte", <<>>, c, <<>>, <<>>)
+SWriteVerb       == SOp("WriteVerb", <<>>, 0, <<>>, <<>>)       \* writes the verb the method was called with
 SWriteRune(r)    == SOp("WriteRune", <<>>, r, <<>>, <<>>)
 SPrint(ts)       == SOp("Print", <<>>, 0, <<>>, ts)
 SPrintf(f, ts)   == SOp("Printf", <<>>, 0, f, ts)
@@ -379,6 +380,7 @@ RunOp(ps, op, verb, a) ==
        [] op.o = "UnsafeByte"   -> unsafely(LAMBDA s : WByte(s, op.n))
        [] op.o \in {"Write", "WriteString"} -> unsafely(LAMBDA s : W(s, op.b))     \* pp.Write / pp.WriteString
        [] op.o = "WriteByte"    -> unsafely(LAMBDA s : W(s, <<op.n>>))
+       [] op.o = "WriteVerb"    -> unsafely(LAMBDA s : W(s, EncodeRune(verb)))        \* a method that looks at the verb it is given
        [] op.o = "WriteRune"    -> unsafely(LAMBDA s : W(s, EncodeRune(op.n)))
        \* the hook's p.UnsafeString(err.Error()): Error() may panic
        [] op.o = "UnsafeErrText" -> LET e == op.ts[1] IN
